@@ -8,20 +8,40 @@ BUILD = os.path.join(_k.BUILD, "C13")
 
 META = {
     "functions_encoded": ["MIR of rlib_sieve::Sieve::{new,min_prime,is_prime,primes,factorize} and PrimeIter::next"],
-    "bounds": {"quick": "tables (smallest prime factor, primality, prime list) additionally at N in {127,128,256,289,300,1000}; every limit N in 0..=64: Sieve::new(N) executed concretely on the MIR; for every 2<=n<=N (symbolic) the table entry divides n, is >= 2 and no 2<=d<entry (symbolic) divides n; is_prime(n) <=> entry = n; is_prime(0), is_prime(1) false; prime list = the primes <= N; factorize(n) for every 1<=n<=N (symbolic): increasing primes whose powers multiply to n",
-               "thorough": "tables for every N in 0..=300 (covers prime squares up to 17^2) and at N in {361,512,529,1000,1024,2048,2209,3000,4096}; factorisation at every N <= 100 and at N in {121,128,169,200,243,256,289,300}"},
-    "outside_claim": ["limits other than those listed (tables up to 4096; factorisation up to 300); the 10^6 / 10^7 comparisons of the quantifier are concrete runs, not solver work: e.g. an exponent field that overflows at 2^16 is invisible",
+    "bounds": {"quick": "tables (smallest prime factor, primality, prime list) additionally at N in {127,128,256,289,300,1000}; every limit N in 0..=64: Sieve::new(N) executed concretely on the MIR; for every 2<=n<=N (symbolic) the table entry divides n, is >= 2 and no 2<=d<entry (symbolic) divides n; is_prime(n) <=> entry = n; is_prime(0), is_prime(1) false; prime list = the primes <= N; factorize(n) for every 1<=n<=N (symbolic): increasing primes whose powers multiply to n; plus the large limit N = 65600 (2^16+64): full prime list, and tables + factorisation for symbolic n in windows of +-16 around 2^13..2^16 and +-8 around 3^9, 3^10 and the last 16 values below the limit",
+               "thorough": "tables for every N in 0..=300 (covers prime squares up to 17^2) and at N in {361,512,529,1000,1024,2048,2209,3000,4096}; factorisation at every N <= 100 and at N in {121,128,169,200,243,256,289,300}; large limits N = 65600 and N = 1048640 (2^20+64, above the 10^6 of the quantifier): full prime list, tables + factorisation for symbolic n in windows of +-32 around every power of two and +-16 around every power of three in (1024, N], the last 32 values below the limit and [10^6-32, 10^6]"},
+    "outside_claim": ["limits other than those listed; at the large limits, values of n outside the listed windows (the windows sit where the exponent of the smallest prime is largest, which is where a packed exponent/cofactor field is widest, and at the limit itself); 10^7 is not run",
                       "the solver's share is the quantification over n and d, not over N (N is enumerated: it bounds every loop and every Vec length)"],
-    "stubs_and_assumes": ["Vec/Range models (from_elem, push, len, index with an if-then-else chain for symbolic indices, Range::next)", "the prime list is a concrete table once N is fixed and is compared with trial division"],
+    "stubs_and_assumes": ["Vec/Range models (from_elem, push, len, index with an if-then-else chain for symbolic indices (tables > 1024 entries: chain over the feasible index interval, found by binary search with the solver), Range::next)", "the prime list is a concrete table once N is fixed and is compared with trial division"],
     "assumptions": ["rustc's MIR dump is the semantics of the compiled code", "mirsym's interpreter and models are faithful (native replay of every counterexample)"],
 }
 
 
+def pow_windows(N, half=32, minq=1024):
+    """windows of the symbolic n for one large limit: around every power of two and of three in (1024, N] (largest exponents, i.e. where
+    an exponent or cofactor field of a packed table is widest), and the last values below the limit (off-by-one at the limit)"""
+    ws = []
+    for b in (2, 3):
+        q = b
+        while q <= N:
+            if q > minq:
+                ws.append((q - half // (1 if b == 2 else 2), min(N, q + half // (1 if b == 2 else 2))))
+            q *= b
+    ws.append((N - half, N))
+    return ws
+
+
+BIG_QUICK = 65600           # 2^16 + 64
+BIG_THOROUGH = 1048640      # 2^20 + 64 (covers the 10^6 limit of the property's quantifier)
+
+
 def limits(tier):
+    """-> [(N, factorise?, windows or None)]"""
     if tier == "quick":
-        return [(N, True) for N in range(0, 65)] + [(N, False) for N in (127, 128, 256, 289, 300, 1000)]
+        return [(N, True, None) for N in range(0, 65)] + [(N, False, None) for N in (127, 128, 256, 289, 300, 1000)] + [(BIG_QUICK, True, pow_windows(BIG_QUICK, 16, 8000))]
     fact = set(range(0, 101)) | {121, 128, 169, 200, 243, 256, 289, 300}
-    return [(N, N in fact) for N in range(0, 301)] + [(N, False) for N in (361, 512, 529, 1000, 1024, 2048, 2209, 3000, 4096)]
+    return [(N, N in fact, None) for N in range(0, 301)] + [(N, False, None) for N in (361, 512, 529, 1000, 1024, 2048, 2209, 3000, 4096)] + \
+        [(BIG_QUICK, True, pow_windows(BIG_QUICK)), (BIG_THOROUGH, True, pow_windows(BIG_THOROUGH) + [(10 ** 6 - 32, 10 ** 6)])]
 
 
 def mir_path():
@@ -29,13 +49,13 @@ def mir_path():
 
 
 def run_limit(arg):
-    N, fact = arg
+    N, fact, wins = arg
     from mirsym.sieve_check import SieveProgram, check_limit
     from mirsym.core import Unsupported, PathLimit
     t0 = time.time()
     try:
         P = SieveProgram(open(mir_path()).read())
-        recs = check_limit(P, N, do_factorize=fact)
+        recs = check_limit(P, N, do_factorize=fact, windows=wins)
         return dict(N=N, ok=True, recs=recs, queries=P.nq + recs[0].get("queries", 0), time=time.time() - t0, fns=sorted(P.used_fns), models=sorted(P.used_models))
     except (Unsupported, PathLimit) as e:
         return dict(N=N, ok=False, error="%s: %s" % (type(e).__name__, e), time=time.time() - t0)
